@@ -451,7 +451,16 @@ func init() { register(&Check{ID: "C01", Run: runC01, Replay: replayC01}) }
 // representatives are delivered as signed transactions in real blocks (Engine A); a rejected
 // proposal must leave relayer and bridge stores equal to the same block without it.
 func c01Delivery(r *mc.Run) {
+	// once with a proposer that has accepted its role, once with a freshly elected one that has
+	// not yet (its first transaction also decides the proposer-accepted flag: a refused proposal
+	// must not)
+	c01DeliveryOn(r, true)
+	c01DeliveryOn(r, false)
+}
+
+func c01DeliveryOn(r *mc.Run, accepted bool) {
 	cfg := c08Cfg()
+	cfg.Accepted = accepted
 	cfg.Voters = append(cfg.Voters, sim.NewMember("relayer-2"), sim.NewMember("relayer-3"))
 	base, err := enga.NewWorld(cfg)
 	must(err)
